@@ -108,6 +108,7 @@ def step (_ : Unit) (ws : List String) : Unit × String :=
     | "inif" :: sep :: main :: files => runInif sep main files
     | "ac" :: flags :: defcb :: doc :: opts => runAc flags defcb doc opts
     | "acp" :: _ :: flags :: defcb :: doc :: opts => runAc flags defcb doc opts
+    | "acre" :: flags :: defcb :: doc :: opts => runAc flags defcb doc opts        -- a parser object used before: the same reading
     | "acpipe" :: flags :: defcb :: doc :: opts => runAc flags defcb doc opts      -- the same bytes, read through a pipe
     | "inifp" :: sep :: main :: files => runInif sep main files                    -- the main file is a pipe
     | "fread" :: nb :: content :: [] => runFread nb content
